@@ -12,7 +12,8 @@
     every id named by a [requires] rule of an argument or of a group exists -- what debug_asserts.rs checks. *)
 From ClapModel Require Import Base.Bytes Base.Machine Parse.Cmd Parse.Build Parse.Valid Parse.Matcher Parse.Errors Parse.Validator Parse.Parser.
 From ClapModel Require Import ParseProofs.Spelling.
-From ClapModel Require Import Gen.HelpTables Help.UsageModel Help.HelpModel Help.HelpReqs Help.HelpProofs Help.HelpLevel Help.HelpSpecVals Help.HelpDispatch Help.HelpUsage Help.HelpGlobals Help.HelpTemplate Help.HelpHeadings Help.HelpRefsBuild Help.HelpFlagGen.
+From ClapModel Require ParseProofs.Dispatch ParseProofs.ChainWide Complete.EngineProofs Complete.EngineLevel.
+From ClapModel Require Import Gen.HelpTables Help.UsageModel Help.HelpModel Help.HelpReqs Help.HelpProofs Help.HelpLevel Help.HelpSpecVals Help.HelpDispatch Help.HelpUsage Help.HelpGlobals Help.HelpTemplate Help.HelpHeadings Help.HelpRefsBuild Help.HelpFlagGen Help.HelpUnbuilt Help.HelpChainWide.
 From RecordUpdate Require Import RecordSet.
 Import RecordSetNotations.
 Open Scope N_scope.
@@ -510,3 +511,119 @@ Theorem C12_help_flag_gen_satisfiable :
     /\ match get_pos lv 1 with Some a => negb (a_negnum a) && negb (a_hyphen a && negb (a_last a)) | None => true end = true.
 Proof. exact hd_gen_hyps. Qed.
 Print Assumptions C12_help_flag_gen_satisfiable.
+
+(** ---- fourth pass: the help flag behind a chain of subcommands WITH arguments between the names ---- *)
+
+(** Class [hsplit c toks ns lv pos] (Help/HelpChainWide.v): [toks] = `pre_0 t_1 pre_1 .. t_k pre_k`; every [pre_i] is a
+    [wprefix] of the level reached (C09's wide class: options in the six spellings of [prefix_ok], values of
+    single-valued positionals, the values of a multi-valued positional) that this level ACCEPTS (its token loop on
+    [pre_i] alone, from a fresh matcher, ends without an error; at the last level also the occurrence still pending);
+    every [t_i] is a [psel] selection (name / alias, inferred prefix, long flag-subcommand, a name behind multi-values
+    with precedence); levels have [ignore_errors] and [args_conflicts_with_subcommands] off; the line ends between two
+    arguments of [lv] with the positional counter at [pos].  `prog -v sub --opt x subsub --help anything..` yields the
+    help of [subsub]: the DisplayHelp error of [lv], which is the level [p_level_walk] reaches by [ns]. *)
+Theorem C12_help_flag_long_wide : forall c0 bin toks ns lv pos rest ul,
+  is_set s_no_binary_name c0 = false -> c_bin_name c0 <> None ->
+  valid c0 = true -> hsplit (build_self c0) toks ns lv pos -> long_help_at lv ul = true ->
+  parse_top c0 (bin :: toks ++ tok_help_long :: rest) = OErr (help_err lv ul)
+  /\ p_level_walk (build_self c0) ns = Some lv
+  /\ e_kind (help_err lv ul) = EDisplayHelp /\ e_cmd (help_err lv ul) = opt_default [] (c_about lv)
+  /\ e_long (help_err lv ul) = ul.
+Proof. exact help_flag_long_wide. Qed.
+Print Assumptions C12_help_flag_long_wide.
+
+(** [-h]: the positional the counter points at does not take hyphen values / negative numbers ([no_hyphen_pos]) *)
+Theorem C12_help_flag_short_wide : forall c0 bin toks ns lv pos rest ul,
+  is_set s_no_binary_name c0 = false -> c_bin_name c0 <> None ->
+  valid c0 = true -> hsplit (build_self c0) toks ns lv pos ->
+  short_help_flag lv ul = true /\ Dispatch.no_hyphen_pos lv pos ->
+  parse_top c0 (bin :: toks ++ tok_help_short :: rest) = OErr (help_err lv ul)
+  /\ p_level_walk (build_self c0) ns = Some lv
+  /\ e_kind (help_err lv ul) = EDisplayHelp /\ e_cmd (help_err lv ul) = opt_default [] (c_about lv)
+  /\ e_long (help_err lv ul) = ul.
+Proof. exact help_flag_short_wide. Qed.
+Print Assumptions C12_help_flag_short_wide.
+
+(** the class lies inside C09's [wsplit] (hence [wline]: [C09_chain_wide] speaks about the same lines) *)
+Theorem C12_hsplit_in_wsplit : forall c toks ns lv pos, hsplit c toks ns lv pos ->
+  exists names lvl, ChainWide.wsplit c toks names lvl.
+Proof. exact hsplit_wsplit. Qed.
+Print Assumptions C12_hsplit_in_wsplit.
+
+(** every level the parser reaches from an UNBUILT tree (C18's class [tree_all unb]: no node carries the [Built] flag)
+    is [_build_self] of an unbuilt record ([from_unbuilt]); such a level holds the generated help argument unless its
+    help flag is disabled -- the hypothesis [In built_help_arg (c_args lv)] of the round-3 theorems, derived *)
+Theorem C12_child_from_unbuilt : forall c n sc,
+  from_unbuilt c -> build_subcommand c n = Some sc -> from_unbuilt sc.
+Proof. exact child_from_unbuilt. Qed.
+Print Assumptions C12_child_from_unbuilt.
+
+Theorem C12_level_has_help : forall lv,
+  from_unbuilt lv -> is_set s_disable_help_flag lv = false -> In built_help_arg (c_args lv).
+Proof. exact level_has_help. Qed.
+Print Assumptions C12_level_has_help.
+
+(** nothing assumed about the help flag but "not disabled at [lv]" and "no subcommand of [lv] is NAMED like the token" *)
+Theorem C12_help_flag_long_wide_gen : forall c0 bin toks ns lv pos rest,
+  is_set s_no_binary_name c0 = false -> c_bin_name c0 <> None ->
+  valid c0 = true -> EngineProofs.tree_all EngineLevel.unb c0 -> hsplit (build_self c0) toks ns lv pos ->
+  is_set s_disable_help_flag lv = false -> possible_subcommand lv tok_help_long false = None ->
+  parse_top c0 (bin :: toks ++ tok_help_long :: rest) = OErr (help_err lv true)
+  /\ p_level_walk (build_self c0) ns = Some lv
+  /\ e_kind (help_err lv true) = EDisplayHelp /\ e_cmd (help_err lv true) = opt_default [] (c_about lv)
+  /\ e_long (help_err lv true) = true.
+Proof. exact help_flag_long_wide_gen. Qed.
+Print Assumptions C12_help_flag_long_wide_gen.
+
+Theorem C12_help_flag_short_wide_gen : forall c0 bin toks ns lv pos rest,
+  is_set s_no_binary_name c0 = false -> c_bin_name c0 <> None ->
+  valid c0 = true -> EngineProofs.tree_all EngineLevel.unb c0 -> hsplit (build_self c0) toks ns lv pos ->
+  is_set s_disable_help_flag lv = false -> possible_subcommand lv tok_help_short false = None ->
+  Dispatch.no_hyphen_pos lv pos ->
+  parse_top c0 (bin :: toks ++ tok_help_short :: rest) = OErr (help_err lv false)
+  /\ p_level_walk (build_self c0) ns = Some lv
+  /\ e_kind (help_err lv false) = EDisplayHelp /\ e_cmd (help_err lv false) = opt_default [] (c_about lv)
+  /\ e_long (help_err lv false) = false.
+Proof. exact help_flag_short_wide_gen. Qed.
+Print Assumptions C12_help_flag_short_wide_gen.
+
+(** the bare chains of round 3 ([C12_help_flag_long_level_gen] / [_short_level_gen]) without their last hypothesis *)
+Theorem C12_help_flag_long_level_unb : forall c0 bin names rest lv,
+  is_set s_no_binary_name c0 = false -> c_bin_name c0 <> None ->
+  valid c0 = true -> EngineProofs.tree_all EngineLevel.unb c0 -> help_chain (build_self c0) names = Some lv ->
+  is_set s_disable_help_flag lv = false -> possible_subcommand lv tok_help_long false = None ->
+  parse_top c0 (bin :: names ++ tok_help_long :: rest) = OErr (help_err lv true)
+  /\ p_level_walk (build_self c0) names = Some lv
+  /\ e_kind (help_err lv true) = EDisplayHelp /\ e_cmd (help_err lv true) = opt_default [] (c_about lv)
+  /\ e_long (help_err lv true) = true.
+Proof. exact help_flag_long_level_unb. Qed.
+Print Assumptions C12_help_flag_long_level_unb.
+
+Theorem C12_help_flag_short_level_unb : forall c0 bin names rest lv,
+  is_set s_no_binary_name c0 = false -> c_bin_name c0 <> None ->
+  valid c0 = true -> EngineProofs.tree_all EngineLevel.unb c0 -> help_chain (build_self c0) names = Some lv ->
+  is_set s_disable_help_flag lv = false -> possible_subcommand lv tok_help_short false = None ->
+  match get_pos lv 1 with Some a => negb (a_negnum a) && negb (a_hyphen a && negb (a_last a)) | None => true end = true ->
+  parse_top c0 (bin :: names ++ tok_help_short :: rest) = OErr (help_err lv false)
+  /\ p_level_walk (build_self c0) names = Some lv
+  /\ e_kind (help_err lv false) = EDisplayHelp /\ e_cmd (help_err lv false) = opt_default [] (c_about lv)
+  /\ e_long (help_err lv false) = false.
+Proof. exact help_flag_short_level_unb. Qed.
+Print Assumptions C12_help_flag_short_level_unb.
+
+(** non-vacuity: `p --verbose --cfg=a sy -y --out o1 q -z --cfg b (--help | -h) --bogus` on C09's three-level [ex_chain]
+    (flag, `--opt=v`, alias, cluster, `--opt v` at two levels; `--cfg b` of level [q] is still pending when the help
+    flag is read): every hypothesis of the four theorems holds, and [parse_top] computes to the help of [q] *)
+Theorem C12_help_wide_satisfiable :
+  is_set s_no_binary_name hw_root = false /\ c_bin_name hw_root <> None /\ valid hw_root = true
+  /\ EngineProofs.tree_all EngineLevel.unb hw_root
+  /\ exists lv, hsplit (build_self hw_root) hw_toks [Chain.w_sync; Dispatch.b1 113] lv 1 /\ c_name lv = Dispatch.b1 113
+       /\ is_set s_disable_help_flag lv = false
+       /\ possible_subcommand lv tok_help_long false = None /\ possible_subcommand lv tok_help_short false = None
+       /\ Dispatch.no_hyphen_pos lv 1
+       /\ (exists p, mt_pending (mt p) <> None
+                     /\ parse_loop lv [[45; 122]; Chain.dd Chain.w_cfg; Dispatch.b1 98] (Chain.lsV 1 false) ps_new = ROk (LDone p))
+       /\ parse_top hw_root (Dispatch.b1 112 :: hw_toks ++ tok_help_long :: [hw_bogus]) = OErr (help_err lv true)
+       /\ parse_top hw_root (Dispatch.b1 112 :: hw_toks ++ tok_help_short :: [hw_bogus]) = OErr (help_err lv false).
+Proof. exact hw_hyps. Qed.
+Print Assumptions C12_help_wide_satisfiable.
